@@ -139,6 +139,11 @@ type faultWriter struct {
 	out    *common.SafeBuffer
 	failAt int // -1 = never
 	n      int
+	// synchronous transport: while hold is set a Write blocks until the peer "reads"
+	// (release), like a net.Pipe whose other end is busy writing
+	hold    bool
+	blocked int
+	wake    chan struct{}
 }
 
 var errConnBroken = errors.New("scripted connection failure")
@@ -147,11 +152,45 @@ func (w *faultWriter) Write(p []byte) (int, error) {
 	w.mu.Lock()
 	fail := w.failAt >= 0 && w.n >= w.failAt
 	w.n++
+	for w.hold {
+		if w.wake == nil {
+			w.wake = make(chan struct{})
+		}
+		ch := w.wake
+		w.blocked++
+		w.mu.Unlock()
+		<-ch
+		w.mu.Lock()
+		w.blocked--
+	}
 	w.mu.Unlock()
 	if fail {
 		return 0, errConnBroken
 	}
 	return w.out.Write(p)
+}
+
+// holdWrites makes every Write block (the peer does not read) until releaseWrites.
+func (w *faultWriter) holdWrites() {
+	w.mu.Lock()
+	w.hold = true
+	w.mu.Unlock()
+}
+
+func (w *faultWriter) releaseWrites() {
+	w.mu.Lock()
+	w.hold = false
+	if w.wake != nil {
+		close(w.wake)
+		w.wake = nil
+	}
+	w.mu.Unlock()
+}
+
+func (w *faultWriter) blockedWriters() int {
+	w.mu.Lock()
+	defer w.mu.Unlock()
+	return w.blocked
 }
 
 func (w *faultWriter) failNow() {
